@@ -14,8 +14,12 @@ A program is a dict
     {"kind": "tx"|"plain", "mode": "fast"|"locked"|"serializable", "timeout": <u, multiple of 20>,
      "form": "ctx"|"dec", "ops": [op, ...]}
     op = ["set",k,v] | ["incr",k,n] | ["get",k] | ["del",k] | ["expire",k(,ttl seconds)] | ["setx",k,v,1|0] | ["sleep",ticks]
-       | ["raise"] | ["raise","base"] | ["nin",form] | ["nout"]   (setx = cache.set(k, v, exist=True|False); its result is recorded as 1/0;
-                                                                 ["raise","base"] raises a BaseException subclass that is not an Exception)
+       | ["raise"] | ["raise","base"] | ["raise","falsy"] | ["raise","falsybase"] | ["nin",form] | ["nout"]
+                                     (setx = cache.set(k, v, exist=True|False); its result is recorded as 1/0;
+                                      ["raise","base"] raises a BaseException subclass that is not an Exception;
+                                      ["raise","falsy"] raises an Exception subclass whose instances are FALSY (`__len__() == 0`: an
+                                      error collection raised while empty), ["raise","falsybase"] a non-Exception BaseException subclass
+                                      whose instances are falsy (`__bool__() is False`))
        | ["commit"] | ["rollback"]   explicit `await tx.commit()` / `await tx.rollback()` on the `Transaction` object that the innermost
                                      enclosing `async with cache.transaction(...) as tx` returned (the body goes on afterwards)
        | ["gc"]  (environment event, not part of the model: an abandoned call of the decorated function is finalised
@@ -267,6 +271,28 @@ class BodyBase(BaseException):
     """a user-defined BaseException that is not an Exception"""
 
 
+class BodyFalsy(Exception):
+    """an "error collection" exception: its truth value is that of the list of problems it carries - raised while that list is
+    empty, the exception OBJECT is falsy (`bool(exc) is False` through `__len__`), although it is being raised"""
+
+    def __init__(self, *problems):
+        super().__init__(*problems)
+        self.problems = list(problems)
+
+    def __len__(self):
+        return len(self.problems)
+
+
+class BodyFalsyBase(BaseException):
+    """a BaseException that is not an Exception and whose instances are falsy (through `__bool__`)"""
+
+    def __bool__(self):
+        return False
+
+
+RAISES = {"": BodyError, "base": BodyBase, "falsy": BodyFalsy, "falsybase": BodyFalsyBase}
+
+
 MODES = {"fast": "FAST", "locked": "LOCKED", "serializable": "SERIALIZABLE"}
 
 
@@ -361,9 +387,9 @@ def execute(init: dict, programs: list[dict], schedule: list[int], snapshot=True
                     elif op[0] == "sleep":
                         await asyncio.sleep(op[1] * 5 / U)
                     elif op[0] == "raise":
-                        if len(op) > 1 and op[1] == "base":
-                            raise BodyBase()
-                        raise BodyError()
+                        if (op[1] if len(op) > 1 else "") not in RAISES:
+                            raise SchedError(f"bad op {op}")
+                        raise RAISES[op[1] if len(op) > 1 else ""]()
                     elif op[0] in ("commit", "rollback"):
                         tx = next((h for h in reversed(handles) if h is not None), None)
                         if tx is None:
